@@ -298,12 +298,88 @@ var freeCounter = &freeProp{ID: "C15", Sub: "free-counter",
 }
 
 var freeShared = &freeProp{ID: "C15", Sub: "shared",
-	Rule:  "free-running: two graphs with independent random edges built over the SAME Task objects and run concurrently from two goroutines; each task sets a plain in-task flag, spins, clears it; the flag must never be seen set on entry and the race detector must stay silent; distinct by case",
-	Gen:   func(t *rapid.T) *FreeCase { return genFree(t, []string{"parallel", "parallel", "max"}, 6, true) },
+	Rule: "free-running: two graphs with independent random edges built over the SAME Task objects and run concurrently from two goroutines; each task sets a plain in-task flag, spins, clears it; the flag must never be seen set on entry and the race detector must stay silent; distinct by case",
+	Gen: func(t *rapid.T) *FreeCase {
+		return genFree(t, []string{"parallel", "parallel", "max", "serial", "serial"}, 6, true)
+	},
 	Check: checkFreeShared,
 }
 
+// --- C16: graphs sharing Task objects all terminate (one after another, and concurrently) ---
+
+func checkSharedTermination(c *FreeCase) error {
+	tasks := make([]*dag.Task, c.N)
+	var mu sync.Mutex
+	runs := make([]int, c.N)
+	for i := 0; i < c.N; i++ {
+		i := i
+		tasks[i] = dag.NewTask(taskID(i), func(ctx context.Context, opt *getoptions.GetOpt, args []string) error {
+			spin(c.Spin[i] / 10)
+			mu.Lock()
+			runs[i]++
+			mu.Unlock()
+			return nil
+		})
+	}
+	bound := StallBound
+	wait := func(g *dag.Graph, what string) error {
+		done := make(chan error, 1)
+		go func() { done <- g.Run(context.Background(), nil, nil) }()
+		select {
+		case err := <-done:
+			if err != nil {
+				return fmt.Errorf("%s: Run returned %v for an all-successful acyclic graph", what, err)
+			}
+			return nil
+		case <-time.After(bound):
+			mu.Lock()
+			defer mu.Unlock()
+			return fmt.Errorf("STALL: %s did not return within %s (tasks run so far per task: %v); every started task function had returned", what, bound, runs)
+		}
+	}
+	// one after another: a graph that has finished must leave its tasks usable
+	if err := wait(buildFree("g1", c, c.Deps, tasks), "first graph"); err != nil {
+		return err
+	}
+	if err := wait(buildFree("g2", c, c.Deps2, tasks), "second graph over the same Task objects, run after the first finished"); err != nil {
+		return err
+	}
+	// and concurrently
+	errs := make([]error, 2)
+	var wg sync.WaitGroup
+	for k, deps := range [][][]int{c.Deps, c.Deps2} {
+		wg.Add(1)
+		go func(k int, deps [][]int) {
+			defer wg.Done()
+			errs[k] = wait(buildFree(fmt.Sprintf("c%d", k), c, deps, tasks), "graph run concurrently with another graph over the same Task objects")
+		}(k, deps)
+	}
+	wg.Wait()
+	for _, e := range errs {
+		if e != nil {
+			return e
+		}
+	}
+	mu.Lock()
+	defer mu.Unlock()
+	for i, n := range runs {
+		if n != 4 {
+			return fmt.Errorf("%s ran %d times over 4 graph runs that each contain it", taskID(i), n)
+		}
+	}
+	return nil
+}
+
+var sharedTermination = &freeProp{ID: "C16", Sub: "shared-termination",
+	Rule:  "free-running: two graphs with independent random edges over the SAME Task objects, in every mode; run one after the other and then concurrently; every Run must return within the bounded wait and every task must have run once per graph run; distinct by case",
+	Gen:   func(t *rapid.T) *FreeCase { return genFree(t, []string{"parallel", "max", "serial"}, 6, true) },
+	Check: checkSharedTermination,
+}
+
+func TestC16_shared(t *testing.T) { sharedTermination.run(t) }
+
 func init() {
+	sharedTermination.register()
 	freeOrder.register()
 	freeCounter.register()
 	freeShared.register()
